@@ -379,7 +379,7 @@ PROPERTIES = {
         "rule": ("generated deterministic models (3..5 modules, ring or star, 1..2 start stages, timers that inject tokens which are forwarded with a hop budget, "
                  "optional tasks with timer steps, a quarter of the modules shuts down and restarts after its k-th message); for every model a fault-free baseline run gives the occurrence counts, then EVERY single placement "
                  "(module x {at_sim_start(stage), start stage of the restart, k-th handle_message before / after its sends, at_sim_end} x {non-catching, catching stereotype} (a share of the handler faults is raised inside the simulator: the documented panic of sending on a transit gate), plus every step "
-                 "of a joined task) and pairs of placements in two modules (all pairs for small models, 60 sampled otherwise) are executed twice with the real "
+                 "of a joined task, registered with join and with try_join - half of the modules register a never-finishing service task with try_join first) and pairs of placements in two modules (all pairs for small models, 60 sampled otherwise) are executed twice with the real "
                  "code: A panics at the point, B falls silent there. Oracle: A returns (no unwind, no abort: a dead worker counts as violation), the error lists "
                  "exactly the modules whose reached fault is not caught (PanicError / JoinError paths), every non-faulty module's log in A equals its log in B, the "
                  "faulty module handles nothing after the fault and is reported inactive at tear-down, the statics (module context, event buffer, globals) are "
@@ -387,7 +387,7 @@ PROPERTIES = {
                  "placement that checked clean; distinct = hash of (model, faults)."),
         "exhaustive_part": "all single fault placements of every generated model; all pairs for models with <= 60 pairs",
         "assumptions": ["start stages after a faulty stage and at_sim_end are still invoked on a deactivated module by des; what the dead module does there is not judged",
-                        "a joined-task panic is only combined with the non-catching stereotype (the statement's 'caught' clause is about callbacks)",
+                        "a joined-task panic (join or try_join handle) is only combined with the non-catching stereotype (the statement's 'caught' clause is about callbacks)",
                         "faulty modules forward with send after a self-scheduled delay, not with send_in (whether a delayed send of a module that died "
                         "meanwhile still leaves its gate is not decided by the statement)"],
         "stages": [
@@ -396,8 +396,9 @@ PROPERTIES = {
         "floor": {
             "quick": {"fault_placements_executed": 250000, "double_fault_placements": 40000, "faults_at_sim_start": 15000, "faults_at_sim_end": 10000,
                       "faults_in_handle_message_after_sending": 120000, "faults_in_joined_task": 8000, "faults_with_catching_stereotype": 120000,
-                      "followup_simulations": 250000, "models": 900},
-            "thorough": {"fault_placements_executed": 4000000, "double_fault_placements": 600000, "faults_in_joined_task": 120000, "models": 15000},
+                      "followup_simulations": 250000, "models": 900, "faults_in_try_joined_task_registered_after_a_running_one": 2000},
+            "thorough": {"fault_placements_executed": 4000000, "double_fault_placements": 600000, "faults_in_joined_task": 120000, "models": 15000,
+                         "faults_in_try_joined_task_registered_after_a_running_one": 30000},
         },
     },
     "C20": {
@@ -456,9 +457,9 @@ PROPERTIES = {
     },
     "C16": {
         "level": "exploration",
-        "rule": ("random operation sequences (3..62 operations) over a pool of messages whose bodies are drawn from 30 types: u8 u32 i32 f32 [u8;4] u64 u128 bool char "
+        "rule": ("random operation sequences (3..62 operations) over a pool of messages whose bodies are drawn from 44 types: u8 u32 i32 f32 [u8;4] u64 u128 bool char "
                  "String Vec<u8> Option Result Box VecDeque BTreeMap () two layout twins, derived named / tuple / unit structs, a derived enum with unit / tuple / "
-                 "named / nested variants, generic derived types, two tracked clonable types, a tracked non-clonable type, a zero-sized type with a counted destructor and a non-debuggable type; every 500 sequences a probe with two distinct types that share one type name (same-named items in two block scopes). Operations: "
+                 "named / nested variants, generic derived types, two tracked clonable types, a tracked non-clonable type, a zero-sized type with a counted destructor, a non-debuggable type, and - so that every MessageBody impl of des is measured with elements of differing length - [String;3], [Option<u32>;4], LinkedList<String>, HashMap<u8,String> (up to 39 entries), HashSet<String>, BTreeSet<String>, a derived wrapper of BinaryHeap<u16>, (IpAddr, SocketAddr, Duration, SimTime) with v4 and v6 addresses, Vec<String>, &'static str, &'static [u16], the 1-tuple, an 8-tuple and a tuple of the remaining integer / float primitives; every 500 sequences a probe with two distinct types that share one type name (same-named items in two block scopes). Operations: "
                  "create (set_content* / set_body / with_body), replace content (same or other type), try_clone, probe with a foreign type (can_cast, try_content, "
                  "try_content_mut; layout twins preferred), failing try_cast (message must come back intact), try_cast to the own type, try_content_mut, format, "
                  "drop. Shadow model (type, value, length, id) checked after every operation; tracked values dropped exactly once at the end; length() == 64 + a "
@@ -475,7 +476,7 @@ PROPERTIES = {
         "floor": {
             "quick": {"operations": 4000000, "probes_with_foreign_type": 500000, "probes_between_layout_twins": 80000, "failed_casts_message_returned_intact": 250000,
                       "casts_to_own_type": 250000, "clones_checked": 500000, "try_clone_of_non_clonable": 10000, "content_replacements": 250000,
-                      "channel_transmissions_timed": 1000, "body_types": 29},
+                      "channel_transmissions_timed": 1000, "body_types": 44},
             "thorough": {"operations": 80000000, "probes_between_layout_twins": 1600000, "miri_operations": 20000, "asan_operations": 2000000},
         },
     },
